@@ -4,8 +4,13 @@ package main
 
 import (
 	"bytes"
+	"crypto/sha256"
+	"encoding/hex"
 	"fmt"
+	"os"
+	"path/filepath"
 	"sort"
+	"sync"
 	"strconv"
 	"strings"
 	"time"
@@ -112,10 +117,100 @@ func compileCase(in string) string {
 		s2t, t2s, tohex(gbuf.String()), optErr(gerr)}, "|")
 }
 
+// digest of everything the compiler produces for one input (both entry points)
+func compileDigest(in string) string {
+	t, err := compiler.ParseString(in)
+	var cbuf bytes.Buffer
+	sm, cerr := t.Compose(&cbuf)
+	s2t, t2s := smTable(sm)
+	t2, _ := compiler.ParseString(in)
+	var gbuf bytes.Buffer
+	gerr := t2.Generate(&gbuf)
+	h := sha256.Sum256([]byte(strings.Join([]string{errString(err), cbuf.String(), optErr(cerr), s2t, t2s, gbuf.String(), optErr(gerr)}, "\x00")))
+	return hex.EncodeToString(h[:8])
+}
+
+// cliPath compiles the way `goht generate` does: ParseFile on a file, then Generate.
+func cliPath(in string) string {
+	dir, err := os.MkdirTemp("", "verif-cli")
+	if err != nil {
+		return "harness-error"
+	}
+	defer os.RemoveAll(dir)
+	fn := filepath.Join(dir, "t.goht")
+	if err := os.WriteFile(fn, []byte(in), 0o644); err != nil {
+		return "harness-error"
+	}
+	t, perr := compiler.ParseFile(fn)
+	if perr != nil {
+		return "err|" + errString(perr)
+	}
+	var gbuf bytes.Buffer
+	gerr := t.Generate(&gbuf)
+	return "ok|" + tohex(gbuf.String()) + "|" + optErr(gerr)
+}
+
 func init() {
 	handlers["compile"] = func(args []string) string {
 		in := unhex(args[0])
 		return guarded(len(in), func() string { return compileCase(in) })
+	}
+	// compilepar <hex>...: every input compiled 3 times from 16 goroutines at once, in different orders
+	handlers["compilepar"] = func(args []string) string {
+		ins := make([]string, len(args))
+		n := 0
+		for i, a := range args {
+			ins[i] = unhex(a)
+			n += len(ins[i])
+		}
+		return guarded(n*4, func() string {
+			const workers = 16
+			res := make([][]string, workers)
+			var wg sync.WaitGroup
+			for w := 0; w < workers; w++ {
+				wg.Add(1)
+				go func(w int) {
+					defer wg.Done()
+					defer func() {
+						if r := recover(); r != nil {
+							res[w] = []string{"panic"}
+						}
+					}()
+					out := make([]string, len(ins))
+					for round := 0; round < 3; round++ {
+						for k := range ins {
+							i := (k*7 + w*13 + round) % len(ins)
+							d := compileDigest(ins[i])
+							if out[i] == "" {
+								out[i] = d
+							} else if out[i] != d {
+								out[i] = "nondet"
+							}
+						}
+					}
+					res[w] = out
+				}(w)
+			}
+			wg.Wait()
+			final := make([]string, len(ins))
+			for i := range ins {
+				final[i] = res[0][i%len(res[0])]
+				for w := 1; w < workers; w++ {
+					if len(res[w]) != len(ins) || res[w][i] != final[i] {
+						final[i] = "nondet"
+					}
+				}
+			}
+			return strings.Join(final, ",")
+		})
+	}
+	handlers["digest"] = func(args []string) string {
+		in := unhex(args[0])
+		return guarded(len(in), func() string { return compileDigest(in) })
+	}
+	handlers["clipath"] = func(args []string) string {
+		in := unhex(args[0])
+		return guarded(len(in), func() string { return cliPath(in) })
 	}
 	handlers["unquote"] = func(args []string) string {
 		s, err := strconv.Unquote(unhex(args[0]))
